@@ -13,6 +13,7 @@ static std::unique_ptr<RSForm> Build(const json& steps) {
     g_uids.clear(); g_uids.push_back(s["uid"].get<EntityUID>());
     const auto u = f->Emplace(KindOf(s["k"]), DefText(s["d"]));
     if (!s["tx"].empty()) (void)f->SetDefinitionFor(u, Atoms(s["tx"]));
+    if (s.contains("tm") && !s["tm"].empty()) (void)f->SetTermFor(u, Atoms(s["tm"]));
   }
   g_uids.clear();
   return f;
@@ -97,13 +98,23 @@ static void CompareWithModel(const RSForm& res, const json& items, const json& w
     if (res.GetRS(u).alias != e["alias"].get<std::string>()) { diff = "alias"; break; }
     if (res.GetRS(u).definition != DefText(e["d"])) { diff = "definition"; break; }
     if (res.GetText(u).definition.Raw() != Atoms(e["tx"])) { diff = "text"; break; }
+    if (e.contains("tm") && res.GetText(u).term.Text().Raw() != Atoms(e["tm"])) { diff = "term"; break; }
     if (IsOk(res, u) != e["ok"].get<bool>()) { diff = "status"; break; }
     if (e["ok"].get<bool>() && TypeOfCst(res, u) != e["type"].get<std::string>()) { diff = "type"; break; }
   }
   if (diff.empty() && i != items.size()) diff = "count";
   if (!diff.empty()) r.Drift("C12", "result differs from the model: " + diff, wit, { {"got", Project(res)} });
 }
-static ops::EquationOptions TableOf(const json& pairs) { ops::EquationOptions e; for (const auto& p : pairs) e.Insert(p[0].get<EntityUID>(), p[1].get<EntityUID>()); return e; }
+// a table entry is [key, value] or [key, value, option]: "hier" keeps the value's texts, "del" takes the key's, "new" sets a new term
+static ops::EquationOptions TableOf(const json& pairs) {
+  ops::EquationOptions e;
+  for (const auto& p : pairs) {
+    ops::Equation opt{};
+    if (p.size() > 2) { const std::string m = p[2]; if (m == "del") opt = ops::Equation{ ops::Equation::Mode::keepDel, "" }; else if (m == "new") opt = ops::Equation{ ops::Equation::Mode::createNew, "renamed" }; }
+    e.Insert(p[0].get<EntityUID>(), p[1].get<EntityUID>(), opt);
+  }
+  return e;
+}
 static std::map<EntityUID, EntityUID> MapOf(const EntityTranslation& t) { std::map<EntityUID, EntityUID> m; for (const auto& [k, v] : t) m[k] = v; return m; }
 
 static void HandleSynth(const json& c, vh::Report& r) {
